@@ -50,6 +50,8 @@ CORPUS = [
     ("", "SELECT - -a"),
     # a cast to a temporal type takes an optional FORMAT / `,` <format string> tail
     ("", "SELECT CAST(a AS DATE)"),
+    # same guard for the other prefix operator whose doubled form is a different token (`~~` lexes as LIKE)
+    ("", "SELECT ~ ~a"),
 ]
 
 
